@@ -10,7 +10,8 @@ VARIABLES script, live      \* live: transactions declared successfully and not 
 vars == <<script, live>>
 Init == script = <<>> /\ live = {}
 X == {1, 2}
-Ev == [k : {"DeclareOk", "DeclareRej", "Post", "CommitOk", "CommitRej", "RollbackOk", "RollbackRej", "Drop"}, x : X]
+\* PostBig: a post of several frames (the peer's max-frame-size is 512)
+Ev == [k : {"DeclareOk", "DeclareRej", "Post", "PostBig", "CommitOk", "CommitRej", "RollbackOk", "RollbackRej", "Drop"}, x : X]
 Enabled(e) == IF e.k \in {"DeclareOk", "DeclareRej"} THEN e.x \notin live /\ ~\E i \in DOMAIN script : script[i].x = e.x /\ script[i].k \in {"DeclareOk", "DeclareRej"}
               ELSE e.x \in live
 Next == \E e \in Ev : /\ Len(script) < Depth /\ Enabled(e) /\ script' = Append(script, e)
@@ -24,7 +25,7 @@ H(x) == 20 + x
 Last == [d |-> "last"]
 Disp(st) == PF("disposition", [role |-> "r", first |-> Last, last |-> -1, settled |-> TRUE, state |-> st])
 St(k, cond, t) == [k |-> k, cond |-> cond, txn |-> t]
-Prefix == << [e |-> "AOpen", cfg |-> [mfs |-> 4096]], [e |-> "PHeader", kind |-> "amqp"], [e |-> "PFrame", perf |-> "open", ch |-> 0, f |-> [mfs |-> 4096, chmax |-> 10]],
+Prefix == << [e |-> "AOpen", cfg |-> [mfs |-> 4096]], [e |-> "PHeader", kind |-> "amqp"], [e |-> "PFrame", perf |-> "open", ch |-> 0, f |-> [mfs |-> 512, chmax |-> 10]],
              [e |-> "ABegin", s |-> "s1", cfg |-> [noi |-> 1000, iw |-> 100, ow |-> 100]], [e |-> "PFrame", perf |-> "begin", ch |-> 3, f |-> [rch |-> [ref |-> "s1"], noi |-> 0, iw |-> 100, ow |-> 100]],
              [e |-> "AAttachS", l |-> "L1", s |-> "s1", cfg |-> [snd |-> 2, rcv |-> 0, idc |-> 0]], PF("attach", [name |-> "L1", h |-> 5, role |-> "r", snd |-> 2, rcv |-> 0]),
              PF("flow", [nii |-> [seen |-> 0], iw |-> 100, noi |-> 0, ow |-> 100, h |-> 5, dc |-> 0, lc |-> 50]) >>
@@ -36,6 +37,7 @@ Conc(e, m) ==
   CASE e.k = "DeclareOk" -> CtlUp(e.x) \o <<Disp(St("declared", "", Id(e.x)))>>
     [] e.k = "DeclareRej" -> CtlUp(e.x) \o <<Disp(St("rejected", "amqp:transaction:unknown-id", <<>>))>> \o CtlDown(e.x)
     [] e.k = "Post" -> << [e |-> "ATxnPost", x |-> Name(e.x), l |-> "L1", m |-> m, len |-> 20], Disp(St("txn", "accepted", Id(e.x))) >>
+    [] e.k = "PostBig" -> << [e |-> "ATxnPost", x |-> Name(e.x), l |-> "L1", m |-> m, len |-> 1500], Disp(St("txn", "accepted", Id(e.x))) >>
     [] e.k = "CommitOk" -> << [e |-> "ATxnCommit", x |-> Name(e.x)], Disp(St("accepted", "", <<>>)) >> \o CtlDown(e.x)
     [] e.k = "CommitRej" -> << [e |-> "ATxnCommit", x |-> Name(e.x)], Disp(St("rejected", "amqp:transaction:rollback", <<>>)) >> \o CtlDown(e.x)
     [] e.k = "RollbackOk" -> << [e |-> "ATxnRollback", x |-> Name(e.x)], Disp(St("accepted", "", <<>>)) >> \o CtlDown(e.x)
